@@ -62,6 +62,19 @@ def grids(rep, tier):
         rep.add(Result("C04.non-binding-grid", BOUNDED_OK, klass="B", backend="native-oracle", function="mako.pyparser:FindIdentifiers / mako.codegen:_Identifiers", bound=bound3,
                        evaluations=len(nb), time_s=time.time() - t2, detail="the later read resolves to the context (%d cases of the known finding excluded)" % (len(outs3) - len(unknown))))
 
+    # names read or bound only in an else / elif / finally / handler clause of a statement in a <% %> block
+    from vrf.bounded import reemit_grid as RG
+    t4 = time.time()
+    stm = [s for s in RG.STMTS if "else:" in s or "finally:" in s or "elif" in s]
+    outs4 = [o for o in pool_map(RG.identifiers_case, stm) if o]
+    b4 = "%d statement forms with else / elif / finally / except clauses (for, while, try, if, nested)" % len(stm)
+    if outs4:
+        rep.add(Result("C04.clause-grid", VIOLATED, klass="B", backend="symtable-oracle", function="mako.pyparser:FindIdentifiers", bound=b4, evaluations=len(stm),
+                       detail=str(outs4[0])[:300], witness=outs4[0], replayed=True, replay={"failures": outs4[:3]}, time_s=time.time() - t4))
+    else:
+        rep.add(Result("C04.clause-grid", BOUNDED_OK, klass="B", backend="symtable-oracle", function="mako.pyparser:FindIdentifiers", bound=b4, evaluations=len(stm),
+                       time_s=time.time() - t4, detail="names read in any clause and not bound are demanded from the context; names bound in any clause are local"))
+
 
 def run(rep, tier):
     rep.trust(*BASE_TRUST)
